@@ -300,7 +300,7 @@ func hostileStreamN(ch *Choices) ([]byte, string, int) {
 				n = 20_000_000 / m
 			}
 			b.Write([]byte{0x58, 'I', byte(m >> 24), byte(m >> 16), byte(m >> 8), byte(m)}) // ordinal 1
-			strs := ch.Intn(3, "fanin.strings") == 1 // elements that cannot become the field's element type
+			strs := ch.Intn(3, "fanin.strings") == 1                                        // elements that cannot become the field's element type
 			for i := 0; i < m; i++ {
 				if strs {
 					b.WriteByte(0x00)
